@@ -19,6 +19,7 @@ type c08Cfg struct {
 	Neg  bool   `json:"neg"`
 	Fwd  bool   `json:"fwd"`
 	Cap  int    `json:"cap"`
+	Mtx  bool   `json:"mutex,omitempty"`
 }
 
 func (cf c08Cfg) build() (stackage.Stack, *listModel) {
@@ -38,6 +39,9 @@ func (cf c08Cfg) build() (stackage.Stack, *listModel) {
 	vals := patternValues(cf.Len, cf.Mask, "e")
 	s.Push(vals...)
 	m.push(vals...)
+	if cf.Mtx {
+		s.SetMutex()
+	}
 	return s, m
 }
 
@@ -171,6 +175,15 @@ func c08IntRun(c *Ctx, cs c08IntCase, count bool) {
 		viol("panic:"+cs.Op, "panicked: %s", p)
 		return
 	}
+	if cs.Cfg.Mtx {
+		if m := stackage.VerifDump(s).Mtx; m != 0 {
+			if _, held := heldMutexes.Load(m); held {
+				heldMutexes.Delete(m)
+				viol("lock-leaked:"+cs.Op, "the stack's mutex is still held after the call returned (the next locking call would block forever)")
+				return
+			}
+		}
+	}
 	if !s.IsInit() || s.Kind() != cs.Cfg.Kind {
 		viol(cs.Op+":stack-destroyed", "afterwards IsInit=%v Kind=%s (the configuration slot was overwritten)", s.IsInit(), s.Kind())
 		return
@@ -202,8 +215,12 @@ type c08ValCase struct {
 
 func c08Receivers() map[string]func() any {
 	return map[string]func() any{
-		"AND":       func() any { return stackage.And().Push("a", stackage.Or().Push("b"), stackage.Cond("k", stackage.Eq, "v")) },
-		"LIST+idx":  func() any { return stackage.List().SetNegativeIndices(true).SetForwardIndices(true).Push("a", nil, "c") },
+		"AND": func() any {
+			return stackage.And().Push("a", stackage.Or().Push("b"), stackage.Cond("k", stackage.Eq, "v"))
+		},
+		"LIST+idx": func() any {
+			return stackage.List().SetNegativeIndices(true).SetForwardIndices(true).Push("a", nil, "c")
+		},
 		"BASIC cap": func() any { return stackage.Basic(4).Push(1, 2) },
 		"NOT mutex": func() any { return stackage.Not().SetMutex().Push("x") },
 		"empty OR":  func() any { return stackage.Or() },
@@ -219,7 +236,7 @@ func c08Receivers() map[string]func() any {
 }
 
 // followUps exercises a structure after an awkward value has been handed to it.
-func followUps(x any) (string, string) {
+func followUps(x any, twins ...any) (string, string) {
 	type fu struct {
 		n string
 		f func()
@@ -227,7 +244,10 @@ func followUps(x any) (string, string) {
 	var list []fu
 	switch tv := x.(type) {
 	case stackage.Stack:
-		twin := tv
+		var twin any = tv
+		if len(twins) > 0 {
+			twin = twins[0] // an independently built structure that went through the same call
+		}
 		list = []fu{
 			{"String", func() { _ = tv.String() }}, {"Unmarshal", func() { tv.Unmarshal() }}, {"IsEqual(self)", func() { tv.IsEqual(tv) }},
 			{"IsEqual(twin)", func() { tv.IsEqual(twin) }}, {"Valid", func() { tv.Valid() }}, {"IsNesting", func() { tv.IsNesting() }},
@@ -236,8 +256,12 @@ func followUps(x any) (string, string) {
 			{"Reveal", func() { tv.Reveal() }}, {"Defrag", func() { tv.Defrag() }}, {"String again", func() { _ = tv.String() }}, {"Pop", func() { tv.Pop() }}, {"Reset", func() { tv.Reset() }},
 		}
 	case stackage.Condition:
+		var twin any = tv
+		if len(twins) > 0 {
+			twin = twins[0]
+		}
 		list = []fu{
-			{"String", func() { _ = tv.String() }}, {"Unmarshal", func() { tv.Unmarshal() }}, {"IsEqual(self)", func() { tv.IsEqual(tv) }}, {"Valid", func() { tv.Valid() }},
+			{"String", func() { _ = tv.String() }}, {"Unmarshal", func() { tv.Unmarshal() }}, {"IsEqual(self)", func() { tv.IsEqual(tv) }}, {"IsEqual(twin)", func() { tv.IsEqual(twin) }}, {"Valid", func() { tv.Valid() }},
 			{"IsNesting", func() { tv.IsNesting() }}, {"Len", func() { tv.Len() }}, {"IsFIFO", func() { tv.IsFIFO() }}, {"Expression", func() { tv.Expression() }}, {"Keyword", func() { tv.Keyword() }},
 		}
 	}
@@ -307,12 +331,18 @@ func c08ValRun(c *Ctx, mk func() any, cs c08ValCase, args []reflect.Value, count
 	x := mk()
 	pv := reflect.New(reflect.TypeOf(x))
 	pv.Elem().Set(reflect.ValueOf(x))
+	// a twin built independently goes through the same call, so that IsEqual afterwards really
+	// compares two structures (an instance compared with itself takes a pointer shortcut)
+	y := mk()
+	pw := reflect.New(reflect.TypeOf(y))
+	pw.Elem().Set(reflect.ValueOf(y))
 	if count {
 		c.Evals.Add(1)
 		c.Transitions.Add(1)
 		c.Traces.Add(1)
 	}
 	desc := fmt.Sprintf("%s.%s(%s)", cs.Recv, cs.Method, cs.Args)
+	callMethod(pw, cs.Method, args)
 	_, p := callMethod(pv, cs.Method, args)
 	if p != "" {
 		if strings.Contains(p, "harness/gen.go") && strings.Contains(p, "ptrOp") {
@@ -322,7 +352,7 @@ func c08ValRun(c *Ctx, mk func() any, cs c08ValCase, args []reflect.Value, count
 		return
 	}
 	// the receiver (the same underlying instance) must remain usable
-	if fn, p := followUps(x); p != "" {
+	if fn, p := followUps(x, y); p != "" {
 		c.Violation("panic-after:"+cs.Method+":"+awkClass(cs.Args)+":"+fn, desc+" returned, but "+fn+" then panicked: "+p, cs, len(desc))
 		return
 	}
@@ -371,18 +401,23 @@ func c08IntCases(c *Ctx) []c08IntCase {
 						if c.Quick() && ki > 0 && cp != 0 {
 							continue
 						}
-						cf := c08Cfg{k, n, mask, o&1 != 0, o&2 != 0, cp}
-						idx := c08IndexValues(n)
-						for _, i := range idx {
-							for _, op := range []string{"Index", "Remove", "Replace", "Traverse", "Insert", "Defrag"} {
-								out = append(out, c08IntCase{cf, op, []int{i}})
+						for _, mtx := range []bool{false, true} {
+							if mtx && (cp != 0 || (c.Quick() && mask != (1<<n)-1)) {
+								continue
 							}
-							out = append(out, c08IntCase{cf, "Traverse", []int{i, 0}})
-							for _, j := range idx {
-								if c.Quick() && mask != (1<<n)-1 {
-									continue
+							cf := c08Cfg{k, n, mask, o&1 != 0, o&2 != 0, cp, mtx}
+							idx := c08IndexValues(n)
+							for _, i := range idx {
+								for _, op := range []string{"Index", "Remove", "Replace", "Traverse", "Insert", "Defrag"} {
+									out = append(out, c08IntCase{cf, op, []int{i}})
 								}
-								out = append(out, c08IntCase{cf, "Swap", []int{i, j}}, c08IntCase{cf, "Less", []int{i, j}})
+								out = append(out, c08IntCase{cf, "Traverse", []int{i, 0}})
+								for _, j := range idx {
+									if c.Quick() && mask != (1<<n)-1 {
+										continue
+									}
+									out = append(out, c08IntCase{cf, "Swap", []int{i, j}}, c08IntCase{cf, "Less", []int{i, j}})
+								}
 							}
 						}
 					}
@@ -433,6 +468,7 @@ func c08GenericInts(c *Ctx) int {
 
 func init() {
 	register(&Check{ID: "C08", Engine: "B", Run: func(c *Ctx) {
+		installLockModel()
 		cases := c08IntCases(c)
 		c.Rule = "(ints) complete product of stacks (kinds, length 0..3/4, nil-slot patterns, negative/forward options, capacity none/Len/Len+1) x index values {MinInt, MinInt+1, MinInt/2, -Len-2..Len+2, MaxInt/2, MaxInt-1, MaxInt} x {Index, Remove, Replace, Traverse (1 and 2 indices), Insert, Defrag, Swap(i,j), Less(i,j)} against the reference list, plus every other int-taking method found by reflection with extreme values; (values) every Stack/Condition method found by reflection that takes `any` or an Operator x the catalogue of awkward values x 7 receivers, followed by String/Unmarshal/IsEqual/Valid/IsNesting/Traverse/Front/Back/Less/Reveal/Defrag/Pop/Reset on the same instance; oracle: no panic, failure + raw dump unchanged for indices that address no element, stack still initialised; non-trivial = distinct int cases whose index addresses no element + distinct value cases"
 		parallelFor(len(cases), func(i int) { c08IntRun(c, cases[i], true) })
